@@ -81,15 +81,26 @@ def x_compare(report):
             raise Unrecognised(name, f"expected pairwise calls {sorted(methods)}, found {sorted({c[0] for c in calls})}")
         orders = {(r, a) for _, r, a in calls}
         if name == "compare_serial_avg_containment":
-            # the ANI branch builds FracMinHashComparison(siglist[j].minhash, siglist[i].minhash) itself
-            fm = [n for n in ast.walk(fn) if isinstance(n, ast.Call) and _u(n.func) == "FracMinHashComparison"]
-            if len(fm) != 1 or len(fm[0].args) != 2 or fm[0].keywords:
-                raise Unrecognised(name, "FracMinHashComparison(...) call changed (the model assumes two positional "
-                                         "arguments and no cmp_scaled/downsample)")
-            a0, a1 = _u(fm[0].args[0]), _u(fm[0].args[1])
-            if not (a0.startswith("siglist[") and a0.endswith("].minhash") and a1.startswith("siglist[") and a1.endswith("].minhash")):
-                raise Unrecognised(name, "FracMinHashComparison arguments changed: " + a0 + ", " + a1)
-            orders.add((a0[8:-9], a1[8:-9]))
+            # the ANI branch (since /repo b596f84): the two calls MinHash.avg_containment_ani makes, with the flag,
+            #   r1 = siglist[j].containment_ani(siglist[i], downsample=downsample)
+            #   r2 = siglist[i].containment_ani(siglist[j], downsample=downsample)
+            #   ani = None; if r1.ani is not None and r2.ani is not None: ani = (r1.ani + r2.ani) / 2
+            asg_ = _assigns(fn)
+            want_r = {"r1": "siglist[{0}].containment_ani(siglist[{1}],downsample=downsample)",
+                      "r2": "siglist[{1}].containment_ani(siglist[{0}],downsample=downsample)"}
+            first = None
+            for a, b in (("j", "i"), ("i", "j")):
+                if all(asg_.get(v) == t.format(a, b) for v, t in want_r.items()):
+                    first = a
+            if first is None:
+                raise Unrecognised(name, f"ANI branch: r1 / r2 are not the two containment_ani calls with the flag: "
+                                         f"r1={asg_.get('r1')} r2={asg_.get('r2')}")
+            res[name + ".ani_first_receiver"] = first
+            ifs_ = [(_u(n.test), [_u(b) for b in n.body]) for n in ast.walk(fn) if isinstance(n, ast.If)]
+            if ("r1.aniisnotNoneandr2.aniisnotNone", ["ani=(r1.ani+r2.ani)/2"]) not in ifs_ or asg_.get("ani") is None:
+                raise Unrecognised(name, f"ANI branch: averaging rule changed: {ifs_}")
+            if any(_u(n.func) == "FracMinHashComparison" for n in ast.walk(fn) if isinstance(n, ast.Call)):
+                raise Unrecognised(name, "FracMinHashComparison is used again (the model follows the containment_ani calls)")
         if len(orders) != 1:
             raise Unrecognised(name, f"pairwise calls use different argument orders: {sorted(orders)}")
         (r, a), = orders
@@ -167,6 +178,8 @@ def cmpSerialRecvIsRow : Bool := {b('compare_serial')}
 def cmpContainmentRecvIsRow : Bool := {b('compare_serial_containment')}
 def cmpMaxRecvIsRow : Bool := {b('compare_serial_max_containment')}
 def cmpAvgRecvIsRow : Bool := {b('compare_serial_avg_containment')}
+/-- compare_serial_avg_containment, ANI branch: is the receiver of the FIRST containment_ani call (`r1`) the row index? -/
+def cmpAvgAniFirstRecvIsRow : Bool := {'true' if res['compare_serial_avg_containment.ani_first_receiver'] == 'i' else 'false'}
 /-- compare.py: `col_idx = index + {res['col_offset']}`, `siglist[index + {res['row_start_offset']}:]` -/
 def cmpParColOffset : Nat := {res['col_offset']}
 def cmpParRowStart : Nat := {res['row_start_offset']}
